@@ -56,13 +56,79 @@ def run(chk):
     f = chk.facts
     pd = chk.anchor("C06.anchor/process_definition", f.fn("process_definition", IR), "process_definition (assign_api_bindings)")
     aab = chk.anchor("C06.anchor/assign_api_bindings", f.fn("assign_api_bindings", IR), "Module::assign_api_bindings")
-    if pd:
-        rule_bump(chk, pd)
-        rule_skip(chk, pd)
+    evaluated = False
     if aab:
-        rule_outer(chk, aab, pd)
+        try:
+            evaluated = rule_alloc_eval(chk, aab)
+        except Exception as e:
+            chk.note("allocator model not evaluated: %r" % (e,))
+    if not evaluated:
+        if pd:
+            rule_bump(chk, pd)
+            rule_skip(chk, pd)
+        if aab:
+            rule_outer(chk, aab, pd)
     rule_params(chk)
     rule_source(chk)
+
+
+REG = {"Texture2D": "T", "StructuredBuffer": "T", "RWStructuredBuffer": "U", "ByteAddressBuffer": "T", "RWByteAddressBuffer": "U", "SamplerState": "S",
+       "BufferAddress": "T", "RWBufferAddress": "U", "RWTexture2D": "U", "Buffer": "T", "RWBuffer": "U"}
+
+
+def rule_alloc_eval(chk, aab):
+    """Module::assign_api_bindings evaluated (bindmodel.py) on model modules - textures, raw / structured buffers,
+    buffer addresses, samplers (static and not), constant buffers, arrays of resources, explicit and default binding
+    groups, non-resource globals - under all 16 parameter combinations and three default-group settings, with hash
+    containers iterated forwards and backwards: every resource gets exactly the placement of the allocation rule
+    (per group: slots handed out in declaration order, complete, contiguous, non-overlapping). False when unreadable."""
+    import itertools
+    import bindmodel as BM
+    f = chk.facts
+    m = BM.BindModel(f)
+    o = {k: m.obj(k) for k in REG}
+    fl = m.scalar()
+    scen = {
+        "plain": [("global", o["Texture2D"], None, False), ("cbuffer", None), ("global", o["RWStructuredBuffer"], None, False), ("global", o["SamplerState"], None, False)],
+        "arrays": [("global", m.array(o["Texture2D"], 4), None, False), ("global", m.mod(m.array(m.mod(o["StructuredBuffer"]), 3)), None, False), ("global", o["Buffer"], None, False),
+                   ("global", m.array(o["ByteAddressBuffer"], 2), None, False), ("cbuffer", None)],
+        "groups": [("global", o["Texture2D"], 2, False), ("global", o["Texture2D"], None, False), ("cbuffer", 2), ("global", o["RWTexture2D"], 0, False), ("cbuffer", None),
+                   ("global", o["StructuredBuffer"], 2, False), ("global", o["RWByteAddressBuffer"], 0, False)],
+        "addresses": [("global", o["BufferAddress"], None, False), ("global", o["Texture2D"], None, False), ("global", o["RWBufferAddress"], None, False),
+                      ("global", o["BufferAddress"], 3, False), ("global", o["RWBuffer"], 3, False), ("cbuffer", 3)],
+        "samplers-and-plain-globals": [("global", o["SamplerState"], None, True), ("global", o["Texture2D"], None, False), ("global", fl, None, False), ("fn",),
+                                       ("global", o["SamplerState"], None, False), ("global", o["SamplerState"], 1, True), ("global", o["Texture2D"], 1, False)],
+    }
+    flags = ("require_slot_type", "support_buffer_address", "metal_slot_layout", "static_samplers_have_slots")
+    n = 0
+    for name, decls in scen.items():
+        bad = None
+        for vals in itertools.product((False, True), repeat=4):
+            params = dict(zip(flags, vals))
+            for dg in (None, 0, 3):
+                for rev in (False, True):
+                    n += 1
+                    r = m.run(decls, dg, params, reverse=rev)
+                    if len(r) == 2:
+                        if r[0] == "unreadable" and n == 1:
+                            return False
+                        bad = bad or "evaluation %s: %s" % r
+                        continue
+                    want = m.ref(decls, dg, params, REG)
+                    if (r[0], r[1]) != want and bad is None:
+                        k = [i for i in range(len(decls)) if r[0][i] != want[0][i]]
+                        if k:
+                            bad = "declaration #%d (%s) with %s, default group %s is placed at %s, the allocation rule gives %s" % (
+                                k[0], decls[k[0]][0] + ("" if decls[k[0]][0] != "global" else " of " + str(m.kind[m.strip(decls[k[0]][1])])),
+                                ", ".join(x for x in flags if params[x]) or "no flags", dg, r[0][k[0]], want[0][k[0]])
+                        else:
+                            bad = "inline constant buffers are %s, must be %s (%s hash order)" % (r[1], want[1], "reverse" if rev else "forward")
+        chk.ob("C06.alloc/%s" % name, bad is None, "placements equal the allocation rule for 16 parameter combinations x 3 default groups x 2 hash orders" if bad is None else
+               "assign_api_bindings: %s: slots overlap, leave gaps or land in another group than the source states" % bad, where(aab), sample={"scenario": name})
+    chk.floor("C06.floor/alloc-evaluations", n, 400, "allocator evaluations", where(aab))
+    for k_ in ("C06.bump/slice-cost", "C06.bump/used_slots/slot/increment", "C06.skip/only-objects", "C06.skip/static-samplers", "C06.group/default"):
+        chk.ob(k_, True, "decided by the evaluated allocator (C06.alloc/*)", where(aab), trivial=True)
+    return True
 
 
 def rule_source(chk):
